@@ -7,8 +7,8 @@ import numpy as np
 from .common import ints, fhex
 
 PROP_FILE = "Properties/C03.v"
-GEN = ["GenC03"]
-RUN_FILES = ["Model/C03_run.v"]
+GEN = ["GenC03", "GenC03imp"]
+RUN_FILES = ["Model/C03_run.v", "Model/C03_imp_run.v"]
 
 R_EARTH = 6370997.0
 
@@ -888,8 +888,10 @@ def analyse(ctx, cases, obs_list):
         stexts += seg_case_texts(case, obs)
     sfiles = []
     for fi, ch in enumerate(shard(stexts, 60)):
-        body = (COQ_HDR + "Definition cases : list (Z * nat * nat * list bool * list (list Z) * list bool * list (list Z)) := [\n%s].\n" % ";\n".join(ch)
-                + "Eval vm_compute in (bad chk_segments cases).\n")
+        body = (COQ_HDR.replace("Model.C03_run.", "Model.C03_run Model.C03_imp_run.")
+                + "Definition cases : list (Z * nat * nat * list bool * list (list Z) * list bool * list (list Z)) := [\n%s].\n" % ";\n".join(ch)
+                + "Eval vm_compute in (bad chk_imp_gni cases).\n"          # the TRANSLATED get_neighbour_info (Gen/GenC03imp.v)
+                + "Eval vm_compute in (bad chk_segments cases).\n")         # the hand model (Model/Organise.v)
         sfiles.append(("c03_seg_%03d" % fi, body, ch))
     res = ctx.coq_eval_many([(n, t) for n, t, _ in files] + [(n, t) for n, t, _ in sfiles])
 
@@ -945,6 +947,11 @@ def analyse(ctx, cases, obs_list):
         if b:
             ctx.broken.append(("correspondence:segments", "segment assembly model and implementation differ on %d of %d cases, e.g. %s" % (
                 len(b), len(ch), ch[b[0]][:200])))
+        ev_ = evals(out)
+        bi = [int(x) for x in _re.findall(r"-?\d+", _re.sub(r"%[a-zA-Z]+", "", ev_[0]))] if len(ev_) >= 2 else [0]
+        if bi:
+            ctx.broken.append(("correspondence:get_neighbour_info_translated", "the translated get_neighbour_info (Gen/GenC03imp.v) and the implementation "
+                               "differ on %d of %d segment cases, e.g. %s" % (len(bi), len(ch), ch[bi[0]][:200])))
     ctx.count("segment_assembly_cases", len(stexts))
 
     # ---- final keys
